@@ -105,6 +105,13 @@ func genMatcher(r *Rng, w *World) Matcher {
 			other = Pick(r, vals)
 		}
 		m.Value = "(" + q(present) + "|" + q(other) + ")"
+	case x < 74:
+		// an alternation with an empty branch also matches a missing or empty label
+		if r.Bool(0.5) {
+			m.Value = q(present) + "|"
+		} else {
+			m.Value = "|" + q(present)
+		}
 	case x < 76:
 		m.Value = "(?i)" + q(strings.ToUpper(present))
 	case x < 80:
@@ -183,6 +190,16 @@ func (propC02) Gen(r *Rng, run uint64, tier string) *Plan {
 	suffix := Pick(r.Sub("suffix"), c02Suffixes)
 	p.Tags["suffix"] = suffix
 	p.Query = c02Query(ms, kind, rng, off, suffix)
+	if kind == "metric_binop" && r.Bool(0.3) {
+		// the first operand filters lines with the very pattern text the second operand's selector uses
+		for _, m := range msB {
+			if m.Op == "=~" || m.Op == "!~" {
+				suffix = " |~ " + quoteLogQL(m.Value)
+				p.Tags["suffix"] = suffix
+				break
+			}
+		}
+	}
 	offB := off
 	if kind == "metric_binop" {
 		// the two operands carry different offsets: each selection has its own window
